@@ -163,4 +163,91 @@ theorem C13_scope (hroot : RootOK fs root rootFile) {out : List (DefId κ)}
     rw [(C13_result res fs root rootFile hroot h).1]
     exact ⟨⟨q, imp, ds, n, hq, himp, rfl, hds, hi, hreq⟩, hin⟩
 
+/-! ### the executable reference used on the O stream is the declarative one -/
+
+/-- `refImports` (plain fixed-point iteration + selection, what the driver answers as "the spec's answer") lists
+    exactly the reference set, each element once, and `refError` decides the two error conditions. -/
+theorem C13_spec_exec :
+    (∀ x, x ∈ refImports res fs root rootFile ↔ InRef res fs root rootFile x) ∧
+    (refImports res fs root rootFile).Nodup ∧
+    (refError res fs root rootFile = true ↔ Dangling res fs root rootFile ∨ MissingName res fs root rootFile) :=
+  ⟨mem_refImports res fs root rootFile, nodup_refImports res fs root rootFile, refError_iff res fs root rootFile⟩
+
+/-- model against executable reference: success ⇒ the result is a permutation of `refImports`;
+    an error is reported iff `refError` says so -/
+theorem C13_result_exec (hroot : RootOK fs root rootFile) :
+    (resolve res fs root rootFile).isErr = refError res fs root rootFile ∧
+    ∀ out, resolve res fs root rootFile = .ok out → out.Perm (refImports res fs root rootFile) := by
+  constructor
+  · have h1 := C13_err_iff res fs root rootFile
+    have h2 := refError_iff res fs root rootFile
+    cases ha : (resolve res fs root rootFile).isErr <;> cases hb : refError res fs root rootFile <;> simp_all
+  · intro out h
+    obtain ⟨hm, hn⟩ := C13_result res fs root rootFile hroot h
+    rw [List.perm_ext_iff_of_nodup hn (nodup_refImports res fs root rootFile)]
+    intro x
+    rw [hm, mem_refImports]
+
+/-! ### the algorithm before the repair violated the property (kernel-checked witnesses)
+
+Files are numbered (`κ = ρ = Nat`, a path literal is the number of its target). These are the inputs of
+DESIGN §9-ad/ae/af, reproduced on the real code before commit 7cb51d3 (replays `findings/C13-fixed-*.json`). -/
+
+def natRes : Nat → Nat → Nat := fun _ rel => rel
+
+/-- main(0) imports N2 from y(2) and N0 from x(1); y imports N1 from x -/
+def diamondRoot : File Nat := ⟨[⟨2, 0, .specific [⟨2, 0, 0⟩]⟩, ⟨1, 1, .specific [⟨0, 1, 0⟩]⟩], [.other]⟩
+def diamondFs : FS Nat Nat :=
+  [(0, diamondRoot), (1, ⟨[], [.frag 0, .frag 1]⟩), (2, ⟨[⟨1, 0, .specific [⟨1, 0, 0⟩]⟩], [.frag 2]⟩)]
+
+/-- §9-ad: the old traversal marked x visited while importing N1 for y, then skipped main's own import of N0 -/
+theorem legacy_diamond_counterexample :
+    Legacy.resolve natRes diamondFs 0 diamondRoot = .ok [(1, 1), (2, 0)] ∧
+    (1, 0) ∈ refImports natRes diamondFs 0 diamondRoot ∧
+    resolve natRes diamondFs 0 diamondRoot = .ok [(1, 0), (1, 1), (2, 0)] := by decide
+
+/-- main(0) imports N1 from x(1); x imports N0 from main -/
+def cycleRoot : File Nat := ⟨[⟨1, 0, .specific [⟨1, 0, 0⟩]⟩], [.other, .frag 0]⟩
+def cycleFs : FS Nat Nat := [(0, cycleRoot), (1, ⟨[⟨0, 0, .specific [⟨0, 0, 0⟩]⟩], [.frag 1]⟩)]
+
+/-- §9-ae: the old traversal appended the root's own fragment N0 a second time -/
+theorem legacy_root_cycle_counterexample :
+    Legacy.resolve natRes cycleFs 0 cycleRoot = .ok [(0, 1), (1, 0)] ∧
+    (0, 1) ∈ rootIds 0 cycleRoot ∧
+    resolve natRes cycleFs 0 cycleRoot = .ok [(1, 0)] := by decide
+
+/-- `#import N0, N0 from x`, as merged by `resolve_operation_extensions` -/
+def repeatRoot : File Nat := ⟨[⟨1, 0, .specific [⟨0, 0, 0⟩, ⟨0, 0, 1⟩]⟩], [.other]⟩
+def repeatFs : FS Nat Nat := [(0, repeatRoot), (1, ⟨[], [.frag 0]⟩)]
+
+/-- §9-af: one fragment found for two requested names made the old code look for a missing name that does not
+    exist — `expect("missing target not found")` -/
+theorem legacy_repeated_name_counterexample :
+    Legacy.resolve natRes repeatFs 0 repeatRoot = .panic ∧
+    resolve natRes repeatFs 0 repeatRoot = .ok [(1, 0)] ∧
+    (resolveExt [(⟨1, [.name 0, .name 0]⟩ : RawImport Nat)]).toOption = some repeatRoot.imports := by decide
+
+/-- non-vacuity of `RootOK` (and of the success hypothesis): the three graphs above satisfy it -/
+example : RootOK diamondFs 0 diamondRoot ∧ RootOK cycleFs 0 cycleRoot ∧ RootOK repeatFs 0 repeatRoot := by
+  refine ⟨?_, ?_, ?_⟩ <;> intro f h <;> simp [diamondFs, cycleFs, repeatFs] at h <;> exact h.symm
+
+/-- non-vacuity of `C13_order_indep`: the diamond with main's two lines swapped -/
+example : FSPerm diamondFs [(0, ⟨diamondRoot.imports.reverse, diamondRoot.defs⟩), (1, ⟨[], [.frag 0, .frag 1]⟩),
+      (2, ⟨[⟨1, 0, .specific [⟨1, 0, 0⟩]⟩], [.frag 2]⟩)] ∧
+    FilePerm diamondRoot ⟨diamondRoot.imports.reverse, diamondRoot.defs⟩ := by
+  have hp : FilePerm diamondRoot ⟨diamondRoot.imports.reverse, diamondRoot.defs⟩ :=
+    ⟨rfl, (List.reverse_perm _).symm⟩
+  exact ⟨FSPerm.cons hp (FSPerm.cons ⟨rfl, List.Perm.refl _⟩ (FSPerm.cons ⟨rfl, List.Perm.refl _⟩ FSPerm.nil)), hp⟩
+
+/-! ### the instance the code runs: paths as component lists, literals resolved by the C20 model -/
+
+/-- `resolve_relative_path(doc, Path::new(rel))` -/
+def pathRes (doc : Paths.P) (rel : String) : Paths.P := Paths.resolve doc (Paths.components rel)
+
+/-- `C13_result` for real paths: two literals that resolve to the same normalised path denote the same file -/
+example (fs : FS Paths.P String) (root : Paths.P) (rootFile : File String) (hroot : RootOK fs root rootFile)
+    (out : List (DefId Paths.P)) (h : resolve pathRes fs root rootFile = .ok out) :
+    (∀ x, x ∈ out ↔ InRef pathRes fs root rootFile x) ∧ out.Nodup :=
+  C13_result pathRes fs root rootFile hroot h
+
 end NitroVerif.Imports
